@@ -1,8 +1,9 @@
 """C11 — At-most-once execution per identity; rerun and read-only caches as documented (DESIGN §6 C11, §5.4).
 
 Case = a history (≤ 8 submissions, plus planted leftovers) over the pool of harness/engines/cachehist.py: five python
-tasks (deterministic, always failing, fail-first, ok-first) and two workflows whose node identities coincide with
-standalone tasks; every submission picks a cache root among three locations, an ordered read-only list among the other
+tasks (deterministic, always failing, fail-first, ok-first), two flat workflows whose node identities coincide with
+standalone tasks, and two NESTED workflows (a workflow as a node: depth 2 and depth 3, the inner workflow identities
+coinciding with the standalone workflows); every submission picks a cache root among three locations, an ordered read-only list among the other
 locations (one of which may not exist), `rerun` and, for workflows, `propagate_rerun`; `plant` puts a leftover
 incomplete job directory (empty, job file only, empty result file, torn result file) at any location.
 
@@ -22,6 +23,7 @@ import json
 
 from harness import core
 from harness.extractors.job_skeleton import extract_job_skeleton
+from harness.extractors.cachehist import extract_rerun_call_sites
 from harness.engines import cachehist as ch
 
 META = {
@@ -41,14 +43,16 @@ META = {
     "only the cache root is ever written.  C11_shadow_regression: the D8 witness now behaves as the abstract cache; "
     "C11_shadow_old_witness documents that the pinned load_result did not.  Tied to pydra/engine/job.py, result.py, "
     "submitter.py by replaying generated histories on real directories. C11_skeleton (decide over the skeleton of Job.run / run_async regenerated from the source on every run): the cached-result test sits under the job lock, a cached result ends the run before anything is cleared or written, the result is saved also when the body raises, rerun skips the test.",
-    "note": "Trusted: Lean kernel; hand-written model CacheHist.lean (workflows of depth 1, node jobs sequential, first "
-    "failing node ends the workflow); the file-system observation (directory state, counter files); generator reach.",
+    "note": "Trusted: Lean kernel; hand-written model CacheHist.lean (workflows nested to any depth, node jobs sequential, first "
+    "failing node ends the workflow; one function for the synchronous and the asynchronous expansion, tied to the source by "
+    "C11_call_sites); the file-system observation (directory state, counter files); generator reach.",
     "rule": "case = history of ≤ 8 submissions (+ ≤ 3 plants) and a worker; distinct by canonical JSON; non-trivial = some "
     "identity is submitted at least twice and the history contains a non-empty read-only list, a plant or a rerun",
     "assumptions": [
         "submissions of one history are sequential (concurrent submitters are C10's subject)",
         "a checksum identifies the task (C06/C07); workflow and node identities are disjoint (checksum prefix)",
         "node jobs of a workflow run one after the other and a failing node ends the workflow (chains)",
+        "no workflow contains a workflow of its own identity (hypothesis Op.Acyclic of the counting theorems)",
     ],
     "trusted": ["model of Job.run's cache protocol / load_result / expand_workflow written by hand (JobProto/CacheHist.lean)"],
 }
@@ -70,11 +74,14 @@ OBLIGATIONS = [
         "C11_readonly_untouched_history",
         "C11_shadow_regression",
         "C11_shadow_old_witness",
+        "C11_nested_rerun_regression",
+        "C11_witness_nested_flag",
+        "C11_call_sites",
     )
 ]
 OBLIGATIONS.append("PydraModel.JobProto.Skel.C11_skeleton")  # decide over the regenerated Job.run / run_async skeleton
-LEAN_TARGETS = ["PydraModel.Props.C11", "PydraModel.JobProto.HashCheckSkel"]
-EXTRACTORS = [extract_job_skeleton]
+LEAN_TARGETS = ["PydraModel.Props.C11", "PydraModel.JobProto.HashCheckSkel", "PydraModel.JobProto.CacheHistCallSites"]
+EXTRACTORS = [extract_job_skeleton, extract_rerun_call_sites]
 MODEL_TARGETS = ["PydraModel.JobProto.CacheHist", "PydraModel.DriverUtil"]
 
 CORPUS = core.VERIF / "corpus" / "cachehist" / "histories.jsonl"
@@ -83,8 +90,8 @@ WATCHDOG_S = float(__import__("os").environ.get("VERIF_WATCHDOG_S", "900"))  # p
 
 
 def gen_history(rng, max_subs: int, worker: str = "debug", torn: bool = False) -> dict:
-    focus_t = rng.sample(range(5), rng.choice([1, 2, 2, 3]))
-    focus_w = rng.choice([[], [0], [1], [0, 1]])
+    focus_t = rng.sample(range(7), rng.choice([1, 2, 2, 3]))
+    focus_w = rng.choice([[], [0], [1], [0, 1], [2], [0, 2], [3], [2, 3], [1, 3]])
     ops, subs, plants = [], 0, 0
     n_subs = rng.randint(2, max_subs)
     while subs < n_subs:
@@ -149,8 +156,9 @@ def run_cases(ctx, cases, with_model=True):
         ctx.judge(c, tr, model, spec_ok, nontrivial=nontrivial(c), what=what)
 
 
-def load_corpus():
-    return [json.loads(l) for l in CORPUS.read_text().splitlines() if l.strip() and not l.startswith("#")]
+def load_corpus(tier="thorough"):
+    out = [json.loads(l) for l in CORPUS.read_text().splitlines() if l.strip() and not l.startswith("#")]
+    return [c for c in out if tier == "thorough" or c.get("tier") != "thorough"]
 
 
 def correspondence(ctx):
@@ -158,7 +166,7 @@ def correspondence(ctx):
 
     t0 = time.time()
     core.assert_repo_loaded()
-    corpus = load_corpus()
+    corpus = load_corpus(ctx.tier)
     # corpus first: the D8 witness (fixed: must pass) in all plant flavours, the stale-_errored regression, rerun/propagate;
     # then generated histories (one driver call for everything: the Lean interpreter's start-up dominates under load)
     cases = list(corpus)
